@@ -402,6 +402,11 @@ def redirect_cases():
     return out
 
 
+def trace_variant(desc, tier):
+    """Every task is run a second time with trace logging enabled (enableTrace(True) is a process-wide configuration)."""
+    return True
+
+
 def tasks(tier, seed):
     ts = []
     H = names() + IPS
